@@ -28,6 +28,8 @@ Part 3.  on ANY tree: `C18_legacy_keeps_atomic` (every `AtomicString`, in docume
          are kept: the processor only sets attributes and rewrites non-atomic text / tail).
 Part 4.  registry position decided over the regenerated registration table: `C18_legacy_stage_order`
          (`inline` 20 > `legacyattrs` 15 > `prettify` 10 > `unescape` 0).
+Part 6.  legacy_em at recogniser level: the five patterns of `LegacyUnderscoreProcessor` ARE the asterisk patterns run with `_`
+         (`C16_legacy_em_patterns`); `_connected_words_` for every spelling (`C16_legacy_em_connected`).
 Part 5.  F-C10-9, kernel-checked on the model: an escaped character inside the KEY of a definition leaves its
          placeholder `STX 95 ETX` in an attribute NAME of the output (`UnescapeTreeprocessor` restores texts, tails
          and attribute VALUES, never names); the value position is restored (`C10_legacy_value_restored`).
@@ -35,6 +37,7 @@ Part 5.  F-C10-9, kernel-checked on the model: an escaped character inside the K
 import MdVerif.Model.PipelineL
 import MdVerif.Model.Dispatch
 import MdVerif.Lemmas.LegacyAttrs
+import MdVerif.Lemmas.LegacyEm
 
 namespace MdVerif.PipelineL
 open Py Pipeline LegacyAttrs
@@ -208,3 +211,26 @@ theorem C10_legacy_value_restored :
 example : hasCtl (convert {} "para {@a\\_b=1} x".toList) = false := by decide +kernel
 
 end MdVerif.PipelineL
+
+/-! ### Part 6: legacy_em, recogniser level (`Model/Ext/LegacyEm.lean`, tied by the unit op `re.legacyem`) -/
+
+namespace MdVerif.LegacyEm
+open Inline
+
+/-- the five patterns of `LegacyUnderscoreProcessor` are, step for step, the five ASTERISK patterns run with `_`:
+    "legacy" emphasis is asterisk-style emphasis, without the word-boundary look-arounds of the smart patterns -/
+theorem C16_legacy_em_patterns : legacyUnderPatterns = starPatterns := legacy_patterns_are_star_shapes
+
+/-- **`_connected_words_`** for every spelling: in `a_b_c` — ANY `a` (it may end in a letter), ANY `c`, `b` non-empty
+    without `_` — the legacy EMPHASIS pattern matches at the first underscore, ends after the second, captures `b` -/
+theorem C16_legacy_em_connected (a b c : Str) (hb : '_' ∉ b) (hne : b ≠ []) :
+    legacyMatch 4 (a ++ '_' :: (b ++ '_' :: c)) a.length = some (some (a.length + 1 + b.length + 1, [b])) :=
+  legacy_emphasis_connected a b c hb hne
+
+-- the default (smart) EMPHASIS pattern refuses the same spot inside a word; the legacy one takes it
+example : seqMatch "snake_case_name".toList 5 '_' ((underPatterns[4]?).map (·.steps) |>.getD []) = none := by
+  decide +kernel
+example : legacyMatch 4 "snake_case_name".toList 5 = some (some (11, ["case".toList])) := by decide +kernel
+example : legacyMatch 3 "a__b__c".toList 1 = some (some (6, ["b".toList])) := by decide +kernel
+
+end MdVerif.LegacyEm
